@@ -1,6 +1,7 @@
 import Frp.Driver.Proto
 import Frp.Model.Udp
 import Frp.Model.Sudp
+import Frp.Model.UdpSrv
 import Frp.Props.C03
 /-
   Driver engine "udp": replays the harness trace (harness/eng_udp.go) on the Base64 / Udp models
@@ -255,6 +256,104 @@ def parseSudpResult (k : Nat) (impl : String) : Option (List Entry × List (List
         | _ => none
   | [] => none
 
+/-! ### server side of a udp proxy with replacement of the work connection (harness/eng_udp_srv.go) -/
+
+inductive VTok
+  | dgram (u ln seed : Nat) (wait : Bool)   -- d / D
+  | reply (u ln seed : Nat)                 -- r
+  | noaddr (u ln seed : Nat)                -- n
+  | badc (u ln seed : Nat)                  -- b
+  | ping                                    -- p
+  | kill (idle : Bool)                      -- x y z / X Y
+
+def parseVTok (t : String) : Option VTok :=
+  if t = "p" then some .ping
+  else if t = "x" ∨ t = "y" ∨ t = "z" then some (.kill true)
+  else if t = "X" ∨ t = "Y" then some (.kill false)
+  else match t.toList with
+    | c :: rest =>
+      match ((String.ofList rest).splitOn ".").map String.toNat? with
+      | [some u, some l, some sd] =>
+        if c = 'd' then some (.dgram u l sd true)
+        else if c = 'D' then some (.dgram u l sd false)
+        else if c = 'r' then some (.reply u l sd)
+        else if c = 'n' then some (.noaddr u l sd)
+        else if c = 'b' then some (.badc u l sd) else none
+      | _ => none
+    | [] => none
+
+def parseVScript (t : String) : Option (List VTok) :=
+  if t = "" then some [] else (t.splitOn ",").mapM parseVTok
+
+structure VSim where
+  s : UdpSrv.St
+  must : List Entry := []             -- datagrams that have to arrive
+  may : List Entry := []              -- datagrams that were in flight when the work connection was taken away
+  flex : List (Entry × Nat) := []     -- … with the number of the connection that was current then
+  inflight : List Entry := []         -- datagrams sent without waiting since the last synchronisation
+  rs : List (Nat × Entry) := []       -- replies sent by the far side (user, payload)
+
+/-- light-load schedule of one script token: the goroutines run to quiescence before the next token
+    (cancelled senders leave, the current sender takes the datagram, ForwardUserConn forwards the reply) -/
+def simVTok (ps : Nat) (st : VSim) (i : Nat) : VTok → VSim
+  | .dgram u ln seed wait =>
+    let p := tunnelPayload u i ln seed
+    let e := entryOf (rd ps p)
+    let s0 := UdpSrv.quiesce st.s
+    let s1 := UdpSrv.step (UdpSrv.step s0 (.userSend (userAddr u) p)) (.senderTake s0.gen true)
+    { st with s := s1, must := st.must ++ [e], inflight := if wait then [] else st.inflight ++ [e] }
+  | .reply u ln seed =>
+    let q := tunnelReply (tunnelPayload u i ln seed)
+    { st with s := UdpSrv.step (UdpSrv.step st.s (.connRecv st.s.gen (packetOf q none (some (userAddr u))))) .sback,
+              rs := st.rs ++ [(u, entryOf q)], inflight := [] }
+  | .noaddr u ln seed =>
+    let q := tunnelReply (tunnelPayload u i ln seed)
+    { st with s := UdpSrv.step (UdpSrv.step st.s (.connRecv st.s.gen (packetOf q none none))) .sback, inflight := [] }
+  | .badc u _ _ =>
+    { st with s := UdpSrv.step (UdpSrv.step st.s (.connRecv st.s.gen
+                { content := [33, 42], laddr := none, raddr := some (userAddr u) })) .sback, inflight := [] }
+  | .ping => { st with s := UdpSrv.step st.s (.connPing st.s.gen), inflight := [] }
+  | .kill idle =>
+    let s' := UdpSrv.run st.s (UdpSrv.replaceIdle st.s.gen)
+    if idle then { st with s := s', inflight := [] }
+    else
+      { st with s := s', inflight := [],
+                must := st.must.filter (fun e => !st.inflight.contains e),
+                may := st.may ++ st.inflight,
+                flex := st.flex ++ st.inflight.map (fun e => (e, st.s.gen)) }
+
+def simVScript (ps : Nat) (toks : List VTok) : VSim :=
+  (toks.zipIdx).foldl (fun st p => simVTok ps st p.2 p.1)
+    { s := UdpSrv.step (UdpSrv.init ps 1024) (.loopGet true) }
+
+/-- the model's result; the placement of a datagram that was in flight at a loss (old connection, new
+    connection, nowhere) is the implementation's choice: it is taken over when it is an allowed one -/
+def modelSpx (k : Nat) (st : VSim) (implW : List WEntry) : String :=
+  let s := st.s
+  let isFlex (e : Entry) : Bool := st.flex.any (fun f => f.1 == e)
+  let fixed := (s.wire.filterMap (fun e => e.2.2.map (fun b => (e.1, entryOf b)))).filter (fun w => !isFlex w.2)
+  let chosen := implW.filter (fun w => st.flex.any (fun f => f.1 == w.2 && (w.1 == f.2 || w.1 == f.2 + 1)))
+  let ustr := String.join ((List.range k).map (fun i =>
+    s!";U{i}={fmtEntries ((s.userLog.filter (fun e => e.1 = userAddr i)).map (fun e => entryOf e.2))}"))
+  s!"W={fmtW (fixed ++ chosen)}{ustr};conns={s.gen};bad=0"
+
+/-- parse `W=…;U0=…;…;conns=n;bad=b` keeping the connection numbers -/
+def parseSrvResult (k : Nat) (impl : String) : Option (List WEntry × List (List Entry) × Bool) :=
+  match impl.splitOn ";" with
+  | w :: rest =>
+    match (kv "W" w).bind parseW with
+    | none => none
+    | some W =>
+      let us := (List.range k).zip (rest.take k)
+      match us.mapM (fun p => (kv s!"U{p.1}" p.2).bind parseEntries) with
+      | none => none
+      | some Us =>
+        if us.length ≠ k then none else
+        match rest.drop k with
+        | [_, b] => (kv "bad" b).map (fun v => (W, Us, v ≠ "0"))
+        | _ => none
+  | [] => none
+
 end UdpEng
 open UdpEng
 
@@ -339,6 +438,23 @@ def udpStep (st : Unit) (tok : List String) (impl : String) : Unit × Verdict :=
         | none => some false
       (st, verdictOf model impl prop)
     | _, _, _ => (st, .bad "sudp")
+  | ["spx", pst, _, _, kt, sc] =>
+    -- the real frps udp proxy, the harness playing frpc; encryption / compression are transparent
+    match kv "ps" pst |>.bind String.toNat?, kv "k" kt |>.bind String.toNat?, kv "s" sc |>.bind parseVScript with
+    | some ps, some k, some toks =>
+      if toks.any (fun t => match t with
+          | .dgram u ln _ _ => u ≥ k ∨ ln < 4
+          | .reply u ln _ => u ≥ k ∨ ln < 4
+          | .noaddr u ln _ => u ≥ k ∨ ln < 4
+          | .badc u ln _ => u ≥ k ∨ ln < 4
+          | _ => false) then (st, .bad "spx token") else
+      let sim := simVScript ps toks
+      let Rs := (List.range k).map (fun i => (sim.rs.filter (fun r => r.1 = i)).map Prod.snd)
+      match parseSrvResult k impl with
+      | some (W, Us, bad) =>
+        (st, verdictOf (modelSpx k sim W) impl (some (C03.holdsOnSrv sim.must sim.may (W.map Prod.snd) Rs Us bad)))
+      | none => (st, verdictOf (modelSpx k sim []) impl (some false))
+    | _, _, _ => (st, .bad "spx")
   | _ => (st, .bad "op")
 
 def udp : Engine := { State := Unit, init := (), step := udpStep }
